@@ -105,11 +105,13 @@ fn gen_paragraph(u: &mut Un, marker: &str) -> String {
     let mut s = String::new();
     for i in 0..n {
         if i > 0 {
-            // separator: space, soft newline, hard break
-            match u.weighted(&[10, 2, 1]) {
+            // separator: space, soft newline, hard break, hard break followed by a soft one
+            // (a line of blanks, which does not end the paragraph)
+            match u.weighted(&[20, 4, 2, 1]) {
                 0 => s.push(' '),
                 1 => s.push('\n'),
-                _ => s.push_str("\n "),
+                2 => s.push_str("\n "),
+                _ => s.push_str(*u.pick(&["\n \n", "\n  \n", "\n   \n"])),
             }
         }
         if i == at {
@@ -146,7 +148,21 @@ fn help_for(u: &mut Un, names: &mut Names, cfg: &BroadCfg) -> Option<DocSpec> {
     match cfg.help {
         HelpGen::None => None,
         HelpGen::Grammar => {
-            if u.chance(220) {
+            if u.chance(30) {
+                // a structured document: text with two paragraphs, an embedded document and more
+                // text, all after the first empty line
+                let id = names.val();
+                let first = gen_paragraph(u, &format!("Hlp{}", id));
+                let second = gen_paragraph(u, &format!("Deep{}x1", id));
+                let inner = gen_paragraph(u, &format!("Deep{}x2", id));
+                let tail = gen_paragraph(u, &format!("Deep{}x3", id));
+                let k = if u.bool() { StyleK::Nested } else { StyleK::NestedEm };
+                Some(DocSpec(vec![
+                    (StyleK::Text, format!("{}\n\n{} ", first, second)),
+                    (k, inner),
+                    (StyleK::Text, format!(" {}", tail)),
+                ]))
+            } else if u.chance(220) {
                 Some(DocSpec::plain(gen_grammar_text(u, names)))
             } else {
                 None
